@@ -94,6 +94,19 @@ def r1_escaping(ctx):
                 elif r[0] == "agg" and r[2] == "Some":
                     fin = [e for e in p if e[0] == "store" and is_self_field(e[2], "finished")]
                     rest_ok = bool(fin) and fin[-1][3] == ("c", "bool", True) and has_subterm(r, lambda s: s[0] == "pl" and is_self_field(s, "unprocessed"))
+            # termination: once the last piece was handed out the iterator is finished for good
+            fin_rows = {}
+            for p in ctx.paths(x):
+                r = ret_of(p)
+                if r is None or ends(p) != "ret":
+                    continue
+                f = decision_on(p, lambda t: is_self_field(t, "finished"))
+                if f is None:
+                    fin_rows.setdefault("untested", set()).add(describe_ret(r, 0)[0][:1])
+                else:
+                    fin_rows.setdefault(f != 0, set()).add(describe_ret(r, 0)[0][:1])
+            ctx.ob("R1", "CDataIterator::next:finished", fin_rows.get(True) == {("None",)} and "untested" not in fin_rows and bool(fin_rows.get(False)) and ("None",) not in fin_rows.get(False, set()),
+                   "every call tests `finished`: set -> None, clear -> a section (the last one sets the flag): %s" % {str(k): sorted(v) for k, v in fin_rows.items()}, config=cfg)
             ctx.ob("R1", "CDataIterator::next:split", split_ok is True and needle == ("c", "u8", 62), "a section ends right before the '>' of a `]]>` (unprocessed[..gt] ends with `]]`, split_at(gt)), the rest starts with '>'", config=cfg)
             ctx.ob("R1", "CDataIterator::next:rest", rest_ok, "the remainder is yielded once and the iterator finishes", config=cfg)
 
